@@ -53,6 +53,38 @@ func checkRead(r HRes, writes []fullWrite) string {
 	return ""
 }
 
+// withConcats extends the values that whole sets wrote by what appends and prepends can
+// legitimately make of them: any of the sets' values with any selection of the run's
+// append / prepend payloads applied in any order (each at most once, payloads are
+// unique), keeping the flags of the set.
+func withConcats(writes []fullWrite, mods []wire.Op) []fullWrite {
+	out := append([]fullWrite{}, writes...)
+	if len(mods) == 0 {
+		return out
+	}
+	var rec func(cur fullWrite, used uint)
+	rec = func(cur fullWrite, used uint) {
+		for i, m := range mods {
+			if used&(1<<uint(i)) != 0 {
+				continue
+			}
+			var d []byte
+			if m.Kind == "append" {
+				d = append(append([]byte{}, cur.data...), m.Data...)
+			} else {
+				d = append(append([]byte{}, m.Data...), cur.data...)
+			}
+			nw := fullWrite{d, cur.flags}
+			out = append(out, nw)
+			rec(nw, used|1<<uint(i))
+		}
+	}
+	for _, w := range writes {
+		rec(w, 0)
+	}
+	return out
+}
+
 func lensOf(ws []fullWrite) []int {
 	var l []int
 	for _, w := range ws {
@@ -157,14 +189,19 @@ func execC05Interleave(t *testing.T, p Plan, src kernel.Source) Result {
 		tier.Fake.Limits = false
 		var tasks []*hTask
 		var writes []fullWrite
+		var mods []wire.Op
 		for i, prog := range p.Progs {
 			tasks = append(tasks, &hTask{h: chunked.NewHandler(w.DialBackend("l1", fmt.Sprintf("t%d", i))), ops: prog, name: fmt.Sprintf("t%d", i)})
 			for _, op := range prog {
 				if op.Kind == "set" {
 					writes = append(writes, fullWrite{op.Data, op.Flags})
 				}
+				if op.Kind == "append" || op.Kind == "prepend" {
+					mods = append(mods, op)
+				}
 			}
 		}
+		writes = withConcats(writes, mods)
 		reads := 0
 		for steps := 0; ; steps++ {
 			w.Quiesce()
@@ -318,13 +355,25 @@ func genC05(seed uint64, tier string) Plan {
 	if g.p(1, 3) {
 		p.Progs = append(p.Progs, []wire.Op{read(), read()})
 	}
+	// a third of the runs: a task that appends or prepends to whatever it finds (a value
+	// built on a torn base would be read back later), then reads
+	if g.p(1, 3) {
+		var prog []wire.Op
+		for i := 0; i < 1+g.n(2); i++ {
+			opq += 10
+			prog = append(prog, wire.Op{Kind: pick(g, []string{"append", "prepend"}), Key: key, Data: g.value(8 + g.n(60)), Opaque: opq})
+		}
+		p.Progs = append(p.Progs, append(prog, read()))
+		// ... and a reader that comes last in program order more often
+		p.Progs[2] = append(p.Progs[2], read())
+	}
 	return p
 }
 
 func init() {
 	register(&Prop{
 		ID: "C05", Gen: genC05, Exec: execC05, Enumerate: enumC05, Level: "fault_enumeration",
-		Rule:       "(a) fault = loss of backend entries. For key lengths {1, 10, 100}, n = 0..6 chunks, no earlier value / an earlier value of 1 chunk / of n+2 chunks, every non-empty subset of {metadata, chunk 0..n-1} is removed from the simulated backend and the key is read through the real chunked handler by get and by gat, then read again (thorough: all 2^(n+1)-1 subsets for every n; quick: all for n <= 4, a quarter for n = 5, 6, half for key length 100). (b) seeded interleavings: two writer tasks (values of different chunk counts, unique contents, different flags) and one or two reader tasks, each on its own handler + backend connection, same key; the kernel chooses among task starts, individual backend requests and reply segments. Oracle: every read returns a miss or exactly the bytes and flags of one single set. Every case is non-trivial; distinct = distinct plan hash",
+		Rule:       "(a) fault = loss of backend entries. For key lengths {1, 10, 100}, n = 0..6 chunks, no earlier value / an earlier value of 1 chunk / of n+2 chunks, every non-empty subset of {metadata, chunk 0..n-1} is removed from the simulated backend and the key is read through the real chunked handler by get and by gat, then read again (thorough: all 2^(n+1)-1 subsets for every n; quick: all for n <= 4, a quarter for n = 5, 6, half for key length 100). (b) seeded interleavings: two writer tasks (values of different chunk counts, unique contents, different flags) and one or two reader tasks, in a third of the runs also a task that appends / prepends 1-2 unique payloads and reads, each on its own handler + backend connection, same key; the kernel chooses among task starts, individual backend requests and reply segments. Oracle: every read returns a miss or exactly the bytes and flags of one single set (with appends / prepends in the run: of one single set with a selection of the payloads applied whole). Every case is non-trivial; distinct = distinct plan hash",
 		Real:       realChunked,
 		Stub:       stubChunked,
 		FaultKinds: []string{"entry_loss"},
